@@ -193,8 +193,10 @@ def main(argv=None):
     # determinism
     nondet = [i for i, r in second.items() if i in results and r.get("outcomes") != results[i].get("outcomes")]
     if nondet:
-        print(f"HARNESS-ERROR property={pid} nondeterministic outcome digests for cases {nondet[:5]}")
-        return 2
+        # outcomes that differ between two executions of the same case: fails closed (exit 2) unless violations were also found -
+        # a library that reads uninitialised memory is nondeterministic AND wrong, and the violations are replayable
+        msg = f"HARNESS-ERROR property={pid} nondeterministic outcome digests for cases {nondet[:5]}"
+        harness_fault = (harness_fault + "\n" if harness_fault else "") + msg
 
     known = load_known()
     agg = dict(
